@@ -908,9 +908,10 @@ def _settle(fn, r, stats, key):
     return ok
 
 
-def defs_to_lambdas(fn, r):
-    """a NEW local `def f(a): return e` is `f = lambda a: e` (the inverse of "lambda -> local def")"""
-    ref_names = set(n.split('\x01')[0] for o in r['names'] for n in o)
+def defs_to_lambdas(fn, r, key=None):
+    """a local `def f(a): return e` that the reference does not have as a nested def is `f = lambda a: e` (the inverse of "lambda -> local def")"""
+    nested_in_ref = {k.rsplit('.<locals>.', 1)[1] for k in reference().get('functions', {}) if key and k.startswith(key + '.<locals>.')}
+    ref_names = nested_in_ref
     k = 0
     for n in ast.walk(fn):
         for f in ('body', 'orelse', 'finalbody'):
@@ -930,7 +931,7 @@ def defs_to_lambdas(fn, r):
 
 
 def inline_new_temps(fn, r, stats, key):
-    defs_to_lambdas(fn, r)
+    defs_to_lambdas(fn, r, key)
     """A local name that the reference does not have, assigned once from a side-effect-free expression whose operands are not reassigned
     afterwards, is a name for that expression: substitute it back (the inverse of "introduce explaining variable")."""
     ref_names = set(n for o in r['names'] for n in o)
